@@ -120,9 +120,29 @@ pub fn type_session(rng: &mut Rng, cfg: &Cfg, p: &TypistParams) -> Vec<TOp> {
             // typematic: the most recently pressed key repeats after the delay
             let (pf, c) = *held.last().unwrap();
             t += rng.range(250, 1000) * MS;
-            for _ in 0..rng.range(1, 4) {
+            // usually a few repeats; now and then somebody leans on the key for half a minute
+            // (half of those long holds end right around the 256-repeat mark, where 8-bit
+            // bookkeeping would wrap, and the finger then often rolls onto a neighbouring key)
+            let long = rng.chance(1, 300);
+            let reps = if !long {
+                rng.range(1, 4)
+            } else if rng.bool() {
+                rng.range(250, 262)
+            } else {
+                rng.range(258, 700)
+            };
+            for _ in 0..reps {
                 ops.push(TOp { t, op: key(pf, c, false) });
                 t += rng.range(30, 500) * MS;
+            }
+            if long && rng.chance(1, 2) {
+                let nc = if rng.bool() { c.wrapping_add(1) } else { c.wrapping_sub(1) };
+                if phys_valid(cfg, pf, nc) {
+                    ops.push(TOp { t, op: key(pf, nc, false) });
+                    if !held.contains(&(pf, nc)) {
+                        held.push((pf, nc));
+                    }
+                }
             }
             continue;
         }
@@ -210,7 +230,18 @@ pub fn inject_bfaults(rng: &mut Rng, cfg: &Cfg, ops: &mut Vec<TOp>, rate_pct: u6
             // raw garbage / hot-plug / overrun byte between two key actions
             if kinds_mask & (1 << 6) != 0 && rng.chance(1, 4) {
                 let b = garbage(rng);
-                out.push(TOp { t: o.t.saturating_sub(1), op: Op::Byte { b } });
+                // usually one stray byte; now and then a stuck line or a flood of identical
+                // replies (FA/FE/FF...), around and beyond the 256 mark
+                let reps = if !rng.chance(1, 60) {
+                    1
+                } else if rng.bool() {
+                    rng.range(250, 262)
+                } else {
+                    rng.range(258, 600)
+                };
+                for _ in 0..reps {
+                    out.push(TOp { t: o.t.saturating_sub(1), op: Op::Byte { b } });
+                }
                 placed += 1;
             } else if kinds_mask & (1 << 7) != 0 && rng.chance(1, 8) {
                 // device power-cycles: BAT completion code AA (or overrun 00), as the host reads it
